@@ -276,11 +276,6 @@ SHAPES = ["Cylinder", "SemiCylinder", "Frustum", "Elbow", "ExtrudedRing", "Revol
 SOLID_SOURCES = ["Cylinder", "Frustum", "Elbow"]
 
 
-def _gen_elbow_params(rng, R):
-    return {"R2": R * rng.uniform(0.5, 1.6), "sweep": rng.uniform(0.3, 2.4), "phi": rng.uniform(0, 2 * math.pi),
-            "D": None}
-
-
 def gen_shape_spec(rng, kind=None):
     kind = kind or rng.choice(SHAPES)
     spec = {"shape": kind, **gen_frame(rng)}
